@@ -40,7 +40,9 @@ def _load():
             _N_ins = 1; _N_outs = 2; _outs_size_is_fixed = False
         class G(tmo.AbstractUnit):
             _N_ins = 1; _N_outs = 1
-        _classes = dict(F=F, VI=VI, VO=VO, G=G)
+        class VJ(tmo.AbstractUnit):
+            _N_ins = 2; _N_outs = 2; _ins_size_is_fixed = False; _outs_size_is_fixed = False
+        _classes = dict(F=F, VI=VI, VO=VO, G=G, VJ=VJ)
     return _tmo
 
 
@@ -86,7 +88,7 @@ class C18(System):
         if self.construct:
             # construct-time wiring: every unit built (in order) from explicit stream lists, including streams that are
             # already docked at a unit built earlier (redock at construction) -- all combinations that fit the port counts
-            sizes = dict(F=(2, 1, True, True), VI=(2, 1, False, True), VO=(1, 2, True, False), G=(1, 1, True, True))
+            sizes = dict(F=(2, 1, True, True), VI=(2, 1, False, True), VO=(1, 2, True, False), G=(1, 1, True, True), VJ=(2, 2, False, False))
             opts_in = [(), (0,), (1,), (0, 1), (1, 0), (None, 0)]
             opts_out = [(), (1,), (2 % n,), (1, 2 % n), (0,), (None, 1)]
             per_unit = []
@@ -102,6 +104,13 @@ class C18(System):
                 per_unit.append(ok)
             for combo in itertools.product(*per_unit):
                 cfgs.append(('wired', tuple(combo)))
+            # the SAME list / tuple object handed to several constructors, and the caller editing its list afterwards:
+            # a unit must own its port lists (seeded change C18-constructor-adopts-callers-list)
+            for container in ('list', 'tuple'):
+                for ids in ((0, 1), (1,), (0, 1, 2)):
+                    for after in ('none', 'append', 'clear', 'reverse'):
+                        if container == 'tuple' and after != 'none': continue
+                        cfgs.append(('samelist', container, ids, after))
         k = seed % len(cfgs)
         return cfgs[k:] + cfgs[:k]
 
@@ -130,6 +139,23 @@ class C18(System):
             elif kind == 'shared':
                 for nm in st.names:
                     units.append(_classes[nm](None, ins=[S[0]], outs=[S[1 % len(S)]]))
+            elif kind == 'samelist':
+                _, container, ids, after = config
+                fixed_in = dict(F=2, VI=None, VO=1, G=1, VJ=None)
+                fixed_out = dict(F=1, VI=1, VO=None, G=1, VJ=None)
+                Lin = [S[k % len(S)] for k in ids]; Lout = [S[(k + 2) % len(S)] for k in ids]
+                if container == 'tuple': Lin, Lout = tuple(Lin), tuple(Lout)
+                for nm in st.names:
+                    ni, no = fixed_in[nm], fixed_out[nm]
+                    # only hand the shared container to lists that can take its length (fixed lists are given a fresh prefix)
+                    ins = Lin if ni is None else list(Lin[:ni])
+                    outs = Lout if no is None else list(Lout[:no])
+                    units.append(_classes[nm](None, ins=ins, outs=outs))
+                if container == 'list':
+                    for L in (Lin, Lout):
+                        if after == 'append': L.append(S[-1])
+                        elif after == 'clear': L.clear()
+                        elif after == 'reverse': L.reverse()
             elif kind == 'wired':
                 # ('wired', ((ins ids...), (outs ids...)) per unit)
                 for nm, (i, o) in zip(st.names, config[1]):
@@ -491,6 +517,8 @@ SYSTEMS = [
     C18('c18.construct.F-VI', ('F', 'VI'), 3, 3, 1, 2, construct=True),
     C18('c18.construct.VO-VI', ('VO', 'VI'), 3, 3, 1, 2, construct=True),
     C18('c18.construct.VI-VO-F', ('VI', 'VO', 'F'), 3, 3, 0, 1, construct=True),
+    C18('c18.construct.VI-VJ', ('VI', 'VJ'), 4, 3, 1, 1, construct=True),
+    C18('c18.construct.VJ-VO', ('VJ', 'VO'), 4, 3, 1, 1, construct=True),
     # the universe of the property: three units, five streams, depth-bounded, all operations incl. pipe notation
     # and Connection.reconnect of an earlier snapshot
     C18('c18.depth.F-VI-VO', ('F', 'VI', 'VO'), 5, 4, 2, 3, snapshots=True),
